@@ -17,13 +17,39 @@ from .srcmodel import dotted, norm
 
 @dataclass
 class Path:
-    events: list            # ast.stmt, or ('test', expr, bool), or ('exc', stmt) for an implicit raise
+    events: list            # ast.stmt, or ('test', expr, bool), or ('exc', stmt), ('enter', helper, call), ('leave', helper)
     exit: str               # 'return' | 'raise' | 'fall'
     exit_node: object = None
     facts: dict = field(default_factory=dict)
 
     def stmts(self):
         return [e for e in self.events if isinstance(e, ast.AST)]
+
+    def expanded_stmts(self):
+        """ids of caller statements whose helper calls were expanded right before them (their raising behaviour
+        is already represented by the spliced helper paths)."""
+        out = set()
+        prev_leave = False
+        for e in self.events:
+            if isinstance(e, tuple) and e[0] == "leave":
+                prev_leave = True
+                continue
+            if prev_leave and isinstance(e, ast.AST):
+                out.add(id(e))
+            prev_leave = False
+        return out
+
+    def own_stmts(self):
+        """Statements of the analysed function itself (not those spliced in from helpers)."""
+        out, depth = [], 0
+        for e in self.events:
+            if isinstance(e, tuple) and e[0] == "enter":
+                depth += 1
+            elif isinstance(e, tuple) and e[0] == "leave":
+                depth -= 1
+            elif isinstance(e, ast.AST) and depth == 0:
+                out.append(e)
+        return out
 
 
 class _Exit(Exception):
@@ -120,8 +146,51 @@ def _consistent(old, new) -> bool:
     return True
 
 
-def enumerate_paths(fn: ast.FunctionDef, max_paths=20000) -> list[Path]:
+def enumerate_paths(fn: ast.FunctionDef, max_paths=20000, resolver=None, _depth=0, _memo=None) -> list[Path]:
+    """resolver(call) -> FunctionDef | None makes the enumeration interprocedural: a simple statement (or return)
+    that calls a resolvable helper is expanded with every path of the helper (events spliced in between
+    ('enter', helper, call) and ('leave', helper); a raising helper path raises here).  Facts about names passed as
+    arguments are carried into and out of the helper."""
     out: list[Path] = []
+    _memo = {} if _memo is None else _memo
+
+    def helper_calls(st):
+        """Resolvable helper calls of a statement in evaluation order (arguments before the call)."""
+        if resolver is None or _depth >= 3:
+            return []
+        found = []
+
+        def visit(n):
+            for ch in ast.iter_child_nodes(n):
+                visit(ch)
+            if isinstance(n, ast.Call):
+                f = resolver(n)
+                if f is not None and f is not fn:
+                    found.append((f, n))
+        visit(st)
+        return found
+
+    def helper_call(st):
+        hc = helper_calls(st)
+        return hc[0] if hc else (None, None)
+
+    def callee_paths(f):
+        if id(f) not in _memo:
+            _memo[id(f)] = enumerate_paths(f, max_paths, resolver, _depth + 1, _memo)
+        return _memo[id(f)]
+
+    def arg_map(f, call):
+        params = [a.arg for a in f.args.args]
+        if params and params[0] in ("self", "cls") and isinstance(call.func, ast.Attribute):
+            params = params[1:]
+        m = {}
+        for p_, a_ in zip(params, call.args):
+            if isinstance(a_, ast.Name):
+                m[p_] = a_.id
+        for k_ in call.keywords:
+            if k_.arg and isinstance(k_.value, ast.Name):
+                m[k_.arg] = k_.value.id
+        return m
 
     def assigned_names(st):
         names = set()
@@ -148,7 +217,59 @@ def enumerate_paths(fn: ast.FunctionDef, max_paths=20000) -> list[Path]:
             else:
                 out.append(Path(ev + [("exc", node)], "raise", node, dict(fc)))
 
+        def expand(f, call, ev, fc, after):
+            """Splice the helper's paths; `after(ev, fc)` continues in the caller for returning paths."""
+            amap = arg_map(f, call)
+            for cp in callee_paths(f):
+                # entering facts must be consistent with what the helper's path assumed about its parameters
+                if any(not _consistent(fc.get(a_), cp.facts.get(p_)) for p_, a_ in amap.items() if cp.facts.get(p_) is not None
+                       and fc.get(a_) is not None):
+                    continue
+                ev2 = ev + [("enter", f, call)] + list(cp.events)
+                if cp.exit == "raise":
+                    name = None
+                    if isinstance(cp.exit_node, ast.Raise) and cp.exit_node.exc is not None:
+                        e_ = cp.exit_node.exc.func if isinstance(cp.exit_node.exc, ast.Call) else cp.exit_node.exc
+                        name = dotted(e_)
+                    if handlers:
+                        handlers[-1](ev2, fc, name)
+                    else:
+                        out.append(Path(ev2, "raise", cp.exit_node, dict(fc)))
+                    continue
+                fc2 = dict(fc)
+                stored = {n.id for e_ in cp.events if isinstance(e_, ast.AST) for n in ast.walk(e_)
+                          if isinstance(n, ast.Name) and isinstance(n.ctx, ast.Store)}
+                for p_, a_ in amap.items():
+                    if p_ not in stored and cp.facts.get(p_) is not None:
+                        fc2[a_] = cp.facts[p_]
+                # nullness of the returned value, for `x = helper(...)`
+                rf = None
+                if cp.exit == "return" and isinstance(cp.exit_node, ast.Return):
+                    rv = cp.exit_node.value
+                    if rv is None or (isinstance(rv, ast.Constant) and rv.value is None):
+                        rf = "none"
+                    elif isinstance(rv, ast.Name):
+                        rf = cp.facts.get(rv.id)
+                    elif isinstance(rv, (ast.Call, ast.List, ast.Dict, ast.Tuple, ast.Set, ast.JoinedStr, ast.ListComp, ast.Constant)):
+                        rf = "notnone" if not isinstance(rv, ast.Call) or dotted(rv.func) in ("list", "tuple", "dict", "set", "str", "int", "float", "sorted") else None
+                elif cp.exit == "fall":
+                    rf = "none"
+                fc2["__ret__"] = (id(call), rf)
+                after(ev2 + [("leave", f)], fc2)
+
+        def expand_all(calls, ev, fc, after):
+            if not calls:
+                return after(ev, fc)
+            (f0, c0), more = calls[0], calls[1:]
+            return expand(f0, c0, ev, fc, lambda e2, f2: expand_all(more, e2, f2, after))
+
         if isinstance(st, ast.Return):
+            hcs = helper_calls(st)
+            if hcs:
+                def fin(ev, fc):
+                    out.append(Path(ev + [st], "return", st, {k_: v for k_, v in fc.items() if k_ != "__ret__"}))
+                expand_all(hcs, events, facts, fin)
+                return
             if handlers and may_raise_expr(st.value):
                 implicit_raise(st, events, facts)
             out.append(Path(events + [st], "return", st, dict(facts)))
@@ -226,8 +347,19 @@ def enumerate_paths(fn: ast.FunctionDef, max_paths=20000) -> list[Path]:
                         out.append(Path(ev, "raise", st, dict(fc)))
             return run(list(st.body), events, facts, handlers + [handler], after_try)
         # simple statement
-        fc = facts
         names = assigned_names(st)
+        hcs = helper_calls(st)
+        if hcs:
+            def cont(ev, fc):
+                fc3 = {k_: v for k_, v in fc.items() if k_ not in names and k_ != "__ret__"}
+                ret = fc.get("__ret__")
+                if ret and ret[1] and isinstance(st, ast.Assign) and len(st.targets) == 1 and isinstance(st.targets[0], ast.Name) \
+                        and isinstance(st.value, ast.Call) and id(st.value) == ret[0]:
+                    fc3[st.targets[0].id] = ret[1]
+                return nxt(ev + [st], fc3)
+            expand_all(hcs, events, facts, cont)
+            return
+        fc = facts
         if names:
             fc = {k_: v for k_, v in facts.items() if k_ not in names}
         if handlers and may_raise_stmt(st):
